@@ -33,7 +33,7 @@ BOUNDS = {
 ASSUMPTIONS = [
     "histories up to the stated length over append / insert(i) / delete by index / delete by session name / replace by session name",
     "names: every string up to 3 characters over the alphabet 'AaB:12 ' (case variants, blanks, suffix-like names inside)",
-    "numbering is required for the group of the inserted name after each insertion (the minimal reading of the statement); other items must keep their session name (frame)",
+    "numbering is required for the group of the inserted name after each insertion - append, insert, or the item put in by a replacement - (the minimal reading of the statement); other items must keep their session name (frame)",
 ]
 WITNESS_TARGETS = ["suffix-assigned", "blank-becomes-UNKNOWN", "case-variants-grouped", "unique-name-untouched"]
 
@@ -177,7 +177,7 @@ def harness(ns, params):
             # (e) originals never altered by disambiguation
             for it, nm in given:
                 OB("original-kept@%d" % t, SymStr.lift(it.original_mnemonic).eq_expr(nm))
-            if inserted is not None and op != "replace":
+            if inserted is not None:
                 uref = []
                 for it in items:
                     u, blank = _useful_ref(it.original_mnemonic)
@@ -262,7 +262,7 @@ def replay(i):
         for it, nm in given:
             if it.original_mnemonic != nm:
                 problems.append("step %d: original mnemonic %r changed to %r" % (t, nm, it.original_mnemonic))
-        if inserted is not None and op != "replace":
+        if inserted is not None:
             ui = norm(useful(inserted.original_mnemonic))
             grp = [k for k, it in enumerate(items) if norm(useful(it.original_mnemonic)) == ui]
             for r, k in enumerate(grp):
